@@ -702,6 +702,11 @@ fn run(ctx: &mut Ctx) {
         }
         ctx.case(&format!("miri/{}", ctx.shard), |c| miri_batch(c, &inputs));
     }
+    if std::env::var("VERIF_MIRI").as_deref() != Ok("1") && ctx.shard == 0 {
+        // the sanitizer supplement was not observed in this run (the driver could not be built / run here, or it was
+        // switched off): said in the evidence, no verdict depends on it
+        ctx.add_stat("miri_unavailable", 1);
+    }
     // E. parser-fuel inputs (long runs of a token the parser may refuse to consume)
     if ctx.shard == 0 {
         let mut b = Vec::new();
